@@ -49,8 +49,8 @@ PROPS['C02'] = dict(
     bounds=GRAPH_BOUNDS + "; panic-free programs; quiescence must be reached within 3-4 collect_cycles() calls (obligation x23)",
     outside=OUTSIDE_COMMON,
     runs=[R('h_graph_n3', 'fa', 'release', covers=[1, 2]), R('h_graph_n2', 'none', 'release', covers=[1, 2]), R('h_graph_n2', 'faw', covers=[1, 2])]
-         + [R('h_fin_n2', covers=[1, 2]), R('h_fin_n3_stash', covers=[1]), R('h_fin_weak_n2', 'faw', covers=[1])]
-         + [R('h_fin_n2', 'fa', 'release', T, covers=[1, 2]), R('h_graph_n3_untraced', tiers=T, covers=[1])]
+         + [R('h_fin_n2', covers=[1, 2]), R('h_fin_weak_n2', 'faw', covers=[1])]
+         + [R('h_fin_n3_stash', tiers=T, covers=[1]), R('h_fin_n2', 'fa', 'release', T, covers=[1, 2]), R('h_graph_n3_untraced', tiers=T, covers=[1])]
          + twin('h_fin_twin'),
 )
 PROPS['C03'] = dict(
@@ -84,8 +84,8 @@ PROPS['C05'] = dict(
 PROPS['C06'] = dict(
     bounds=PROPS['C05']['bounds'] + "; termination: a path exceeding 3M IR instructions or 4 collect calls without quiescence is a violation",
     outside=OUTSIDE_COMMON + "; chains of more than 4 finalizer-released objects",
-    runs=[R('h_fin_n3_stash', covers=[1]), R('h_fin_n2', 'fa', 'release', covers=[1, 2]), R('h_fin_weak_n2', 'faw', covers=[1])]
-         + [R('h_fin_n3', tiers=T, covers=[1]), R('h_fin_weak_n3', 'faw', tiers=T, covers=[1]), R('h_fin_weak_n2', 'faw', 'release', T, covers=[1])]
+    runs=[R('h_fin_n3_stash', covers=[1]), R('h_fin_n2', covers=[1, 2]), R('h_fin_weak_n2', 'faw', covers=[1])]
+         + [R('h_fin_n2', 'fa', 'release', T, covers=[1, 2]), R('h_fin_n3', tiers=T, covers=[1]), R('h_fin_weak_n3', 'faw', tiers=T, covers=[1]), R('h_fin_weak_n2', 'faw', 'release', T, covers=[1])]
          + twin('h_fin_twin'),
 )
 PROPS['C07'] = dict(
@@ -102,7 +102,7 @@ PROPS['C08'] = dict(
     bounds="N<=2 nodes (ring of 3 in the thorough tier): program-held Weaks with symbolic life cycles; weak slots inside nodes pointing to self / next / "
            "previous; upgrades attempted at top level after every operation and from inside finalizers and destructors (symbolic per node)",
     outside=OUTSIDE_COMMON,
-    runs=[R('h_weak_prog_n2', 'faw', covers=[1, 2]), R('h_weak_cb_n2', 'faw', covers=[1, 2]), R('h_weak_cb_n2', 'faw', 'release', covers=[1, 2])]
+    runs=[R('h_weak_prog_n2', 'faw', covers=[1, 2]), R('h_weak_cb_n2', 'faw', covers=[1, 2]), R('h_weak_cb_n2', 'faw', 'release', T, covers=[1, 2])]
          + [R('h_weak_cb_n2', 'w', covers=[1]), R('h_unwrap_weak', 'faw', covers=[1, 2]), R('h_clean_n2', 'fawc', tiers=T, covers=[1])]
          + [R('h_weak_cb_ring3', 'faw', tiers=T, covers=[1, 2])]
          + twin('h_weak_twin', 'faw'),
